@@ -1,4 +1,4 @@
-"""VM-level witness search for the exit behaviours of forEach / count / select {code} / apply / findIf (C02): programs with the
+"""VM-level witness search for the exit behaviours of forEach / count / select {code} / apply / findIf, of for and of the switch operators (C02): programs with the
 reference result, run on a sqfvm built from the current tree."""
 import subprocess, tempfile, os
 CASES = [
@@ -26,6 +26,13 @@ CASES = [
     ('for with from behind to runs nothing', 'private _r = 0; for "_i" from 1 to 0 do { _r = 1 }; _r', '0'),
     ('for runs once when from equals to', 'private _r = 0; for "_i" from 2 to 2 do { _r = _r + 1 }; _r', '1'),
     ('for uses the value the body left in the variable', 'private _r = []; for "_i" from 0 to 5 do { _r pushBack _i; _i = _i + 1 }; _r', '[0,2,4]'),
+    ('switch takes the matching case', 'switch 2 do { case 1: { "one" }; case 2: { "two" }; default { "def" } }', 'two'),
+    ('switch falls through cases without code', 'switch 3 do { case 1; case 3: { "fall" }; default { "def" } }', 'fall'),
+    ('switch takes the first matching case only', 'switch 1 do { case 1: { "first" }; case 1: { "second" } }', 'first'),
+    ('switch takes default when no case matches', 'switch 9 do { case 1: { "one" }; default { "def" } }', 'def'),
+    ('switch prefers a later case over an earlier default', 'switch 9 do { default { "def" }; case 9: { "nine" } }', 'nine'),
+    ('case outside a switch is reported', '{ case 1 } except__ { }; 7', '7'),
+    ('default outside a switch is reported', '{ default { 1 } } except__ { }; 7', '7'),
 ]
 def search(sqfvm):
     for (name, code, want) in CASES:
